@@ -9,6 +9,13 @@ hook_commits = [l.split()[0] for l in HOOK_COMMITS if "verif" in l.lower() and n
 
 # id -> (engine, technique, level text, level note, design ref)
 CHECKS = {
+    "C10": (
+        "E2",
+        "exhaustive enumeration of all token strings up to length L over a 25-token alphabet (and all short literal strings, all single spelling substitutions) against a reference parser written from the documented EBNF and precedence table",
+        "Every token string of length <= 5 (quick) / 6 (thorough) over one spelling of every operator tier, call, field access, conditionals and unicode exponents is parsed by the real parser (canonical S-expression through the hook) and by an independent recursive-descent reference derived from the documents; verdict MUST-PARSE-AS(tree) / MUST-REJECT / UNSPECIFIED, so both directions of the property are decided. Plus every single alternative-spelling substitution in all strings of length <= 3/4 and every character string of length <= 6/7 over the literal alphabet against the documented number forms.",
+        "Trusted: the reference parser (about 300 lines, from the EBNF + book table; where the two documents give different but value-equivalent trees either is accepted; fixed UNSPECIFIED classes listed in the evidence assumptions).",
+        "§4 C10, Appendix A",
+    ),
     "C22": (
         "E1",
         "exhaustive enumeration of all line sequences up to length n over a 12-line alphabet, each executed through the real binary in every input channel (file, -e, file + -e at every split) with the in-process library run as reference",
